@@ -204,7 +204,7 @@ def summarise(ctx, fn, T, depth=0):
     return (lo, hi)
 
 
-def explore_replies(ctx, fn, T, depth=0):
+def explore_replies(ctx, fn, T, depth=0, init_excl=frozenset()):
     prog = ctx.prog
     evc = type_evaluator(fn, T, ctx=ctx)
 
@@ -253,6 +253,26 @@ def explore_replies(ctx, fn, T, depth=0):
             if 'e' in n:
                 v = f.const_value(n['e'])
                 e = f.nodes[f.skip(n['e'])]
+                # return a || helper(element): on the path where a is false the verdict is the helper's (explored with what is known so far, e.g. that the typed
+                # request helper declined); where a is true the stanza is claimed
+                eid = f.skip(n['e'])
+                if e['k'] == 'bin' and e.get('op') == '||':
+                    if ('orlhs', eid, True) in excl:
+                        return (lo, hi, ('true', nid), excl)
+                    if ('orlhs', eid, False) in excl:
+                        r = f.nodes[f.skip(e['r'])]
+                        if r['k'] == 'call' and not r.get('op') and depth < 3:
+                            for g in prog.callee_fns(f, r):
+                                top = f
+                                while top.is_lambda and top.parent_id in prog.fns:
+                                    top = prog.fns[top.parent_id]
+                                if g.entry is not None and g.id != f.id and ((g.record and g.record == top.record) or g.file == f.file) \
+                                        and any(f.fmt(a) == 'p0' for a in r.get('args', [])):
+                                    sub = explore_replies(ctx, g, T, depth + 1, frozenset(x for x in excl if not (isinstance(x, tuple) and x[0] == 'orlhs')))
+                                    claims = [x for x in sub if x[2] and x[2][0] in ('true', 'expr', 'r0')]
+                                    if not claims:
+                                        return (lo, hi, ('false', nid), excl)
+                                    return (min(lo + min(x[0] for x in claims), INF), min(hi + max(x[1] for x in claims), INF), ('true', nid), excl)
                 if v and v[0] == 'bool':
                     return (lo, hi, ('true', nid) if v[1] else ('false', nid), excl)
                 if e['k'] == 'call' and f.cname(e) in HELPERS_R0:
@@ -270,6 +290,12 @@ def explore_replies(ctx, fn, T, depth=0):
                 v = evc(f, node, st)
                 return v if isinstance(v, bool) else None
             f._decompose(cond, pol, res, known)
+            # the left operand of "return a || b": remember which way it went
+            par = f.parents().get(f.skip(cond))
+            while par is not None and f.nodes[par]['k'] in ('cast', 'icast', 'paren', 'tmp'):
+                par = f.parents().get(par)
+            if par is not None and f.nodes[par]['k'] == 'bin' and f.nodes[par].get('op') == '||' and f.skip(f.nodes[par]['l']) == f.skip(cond):
+                excl = excl | {('orlhs', par, pol)}
             for c, p in res:
                 n = f.nodes[f.skip(c)]
                 if n['k'] == 'call' and isinstance(p, bool) and (f.sym(n) or {}).get('static') and (f.sym(n) or {}).get('name', '').startswith('is') \
@@ -283,7 +309,7 @@ def explore_replies(ctx, fn, T, depth=0):
                         names = [x.strip() for x in targs.strip('<>').split(',')]
                         excl = excl | frozenset(x for x in names if x.startswith('QXmpp') or x[:1].isupper())
         return (lo, hi, ret, excl)
-    exits, info = cfgx.explore(fn, (0, 0, None, frozenset()), transfer, evc, refine)
+    exits, info = cfgx.explore(fn, (0, 0, None, frozenset(init_excl)), transfer, evc, refine)
     return exits
 
 
@@ -483,6 +509,10 @@ def r0b(prog, run):
                     n = pf.nodes[dj]
                     if n['k'] == 'call' and pf.cname(n) == 'QXmpp::Private::isIqType' and len(n.get('args', [])) >= 3 and pf.fmt(n['args'][0]) == 'p0':
                         got.add((pf.strval(n['args'][1]), pf.fmt(n['args'][2], inline=False)))
+                    elif n['k'] == 'call' and pf.cname(n) == t + '::checkIqType' and len(n.get('args', [])) == 2 and \
+                            [pf.fmt(a, inline=True) for a in n['args']] in (['p0.QDomNode::firstChildElement().QDomElement::tagName()', 'p0.QDomNode::firstChildElement().QDomNode::namespaceURI()'],
+                                                                           ['QXmpp::Private::firstChildElement(p0).QDomElement::tagName()', 'QXmpp::Private::firstChildElement(p0).QDomNode::namespaceURI()']):
+                        got |= want          # the class's own (tag, namespace) table applied to the first child: what the typed helper does
                     else:
                         other.append(pf.fmt(dj, inline=False)[:70])
         if other:
